@@ -113,3 +113,23 @@ def default_post_hooks(meta: int, hooks: int) -> bool:
     if mt == MetaType.NONE:
         return cfg.post_hooks == ["ruff check . --fix --extend-select=I", "ruff format ."]
     return cfg.post_hooks == ["ruff check --fix .", "ruff format ."]
+
+
+# ---------------------------------------------------------------------------- responses honour the override too
+from openapi_python_client.parser.responses import _source_by_content_type  # noqa: E402
+
+RTYPES = ("text/json", "application/x-report", "application/zip", "text/csv", "application/json", "vendor/x")
+RTARGETS = ("application/json", "text/plain", "application/octet-stream", "application/vnd.x+json")
+RCFGS = {(s, t): Config.from_sources(ConfigFile(post_hooks=[], content_type_overrides={s: t}), MetaType.NONE, Path("d.json"), "utf-8", True, None) for s in RTYPES for t in RTARGETS}
+
+
+def response_content_type_override(src: int, tgt: int) -> bool:
+    """
+    An overridden media type in a *response* is decoded exactly like the media type it maps to.
+    pre: 0 <= src < 6 and 0 <= tgt < 4
+    post: _
+    """
+    s, t = _pick(RTYPES, src), _pick(RTARGETS, tgt)
+    got = _source_by_content_type(s, RCFGS[(s, t)])
+    want = _source_by_content_type(t, PLAIN)
+    return want is not None and got == want
